@@ -29,27 +29,90 @@ func decCallName(c *ast.CallExpr) string {
 // (type constant, kind) where kind is "prim" or
 // "static:<size>:<enc>:<dec>".
 func decRecordsIn(fd *ast.FuncDecl, ce *constEnv) (typs []string, kinds []string) {
+	// local closures `name := func(p T, …) { … Make…Record(p, …) … }`: the
+	// records they build are attributed to each CALL of the closure, with the
+	// type taken from the call's argument
+	type tmpl struct {
+		argIdx int
+		kind   string
+	}
+	closures := map[string][]tmpl{}
+	skip := map[*ast.FuncLit]bool{}
+	kindOf := func(c *ast.CallExpr) (string, bool) {
+		switch decCallName(c) {
+		case "MakePrimitiveRecord":
+			if len(c.Args) == 2 {
+				return "prim", true
+			}
+		case "MakeStaticRecord":
+			if len(c.Args) == 5 {
+				return "static:" + exprString(c.Args[2]) + ":" + exprString(c.Args[3]) + ":" + exprString(c.Args[4]), true
+			}
+		}
+		return "", false
+	}
 	ast.Inspect(fd.Body, func(n ast.Node) bool {
+		as, ok := n.(*ast.AssignStmt)
+		if !ok || len(as.Lhs) != 1 || len(as.Rhs) != 1 {
+			return true
+		}
+		id, ok1 := as.Lhs[0].(*ast.Ident)
+		fl, ok2 := as.Rhs[0].(*ast.FuncLit)
+		if !ok1 || !ok2 {
+			return true
+		}
+		params := map[string]int{}
+		k := 0
+		for _, f := range fl.Type.Params.List {
+			for _, nm := range f.Names {
+				params[nm.Name] = k
+				k++
+			}
+		}
+		var ts []tmpl
+		ast.Inspect(fl.Body, func(m ast.Node) bool {
+			if c, ok := m.(*ast.CallExpr); ok {
+				if kind, ok := kindOf(c); ok {
+					if pid, ok := c.Args[0].(*ast.Ident); ok {
+						if idx, ok := params[pid.Name]; ok {
+							ts = append(ts, tmpl{idx, kind})
+						}
+					}
+				}
+			}
+			return true
+		})
+		if len(ts) > 0 {
+			closures[id.Name] = ts
+			skip[fl] = true
+		}
+		return true
+	})
+	ast.Inspect(fd.Body, func(n ast.Node) bool {
+		if fl, ok := n.(*ast.FuncLit); ok && skip[fl] {
+			return false
+		}
 		c, ok := n.(*ast.CallExpr)
 		if !ok {
 			return true
 		}
+		if id, ok := c.Fun.(*ast.Ident); ok {
+			for _, t := range closures[id.Name] {
+				if t.argIdx < len(c.Args) {
+					typs = append(typs, intConst(ce, "sidecar", exprString(c.Args[t.argIdx])))
+					kinds = append(kinds, t.kind)
+				}
+			}
+		}
 		switch decCallName(c) {
-		case "MakePrimitiveRecord":
-			if len(c.Args) != 2 {
-				fail("%s: MakePrimitiveRecord with %d args", fd.Name.Name, len(c.Args))
+		case "MakePrimitiveRecord", "MakeStaticRecord":
+			kind, ok := kindOf(c)
+			if !ok {
+				fail("%s: %s with %d args", fd.Name.Name, decCallName(c), len(c.Args))
 				return true
 			}
 			typs = append(typs, intConst(ce, "sidecar", exprString(c.Args[0])))
-			kinds = append(kinds, "prim")
-		case "MakeStaticRecord":
-			if len(c.Args) != 5 {
-				fail("%s: MakeStaticRecord with %d args", fd.Name.Name, len(c.Args))
-				return true
-			}
-			typs = append(typs, intConst(ce, "sidecar", exprString(c.Args[0])))
-			kinds = append(kinds, "static:"+exprString(c.Args[2])+":"+
-				exprString(c.Args[3])+":"+exprString(c.Args[4]))
+			kinds = append(kinds, kind)
 		}
 		return true
 	})
@@ -147,39 +210,102 @@ func genC15Ticket() {
 		l.p("def %sTypes : List Nat := [%s]", fn, strings.Join(typs, ", "))
 		l.p("def %sKinds : List String := %s", fn, leanStrList(kinds))
 	}
-	// codec.go DecodeString: the conditions of the `if`s that return the
-	// prefix / checksum errors, as written in the source
-	prefixCond, checksumCond := "", ""
+	// codec.go DecodeString: HOW the prefix and the checksum are compared,
+	// classified by meaning (not by spelling, variable names or error texts):
+	//   prefix   "exact": `x != sidecarPrefix`, `!(x == sidecarPrefix)` (either
+	//            operand order) or `!strings.HasPrefix(s, sidecarPrefix)`
+	//   checksum "exact": a negated bytes.Equal (or bytes.Compare(..) != 0)
+	//            whose operands are sliced, if at all, up to checksumLen
+	// anything else is reported verbatim as "other: …"; "missing" = no such test.
+	prefixCmp, checksumCmp := "missing", "missing"
 	if fd := findFunc(files, "DecodeString"); fd == nil {
 		fail("sidecar.DecodeString not found")
 	} else {
+		mentions := func(e ast.Expr, name string) bool {
+			f := false
+			ast.Inspect(e, func(n ast.Node) bool {
+				if id, ok := n.(*ast.Ident); ok && id.Name == name {
+					f = true
+				}
+				return true
+			})
+			return f
+		}
+		hasCall := func(e ast.Expr, name string) *ast.CallExpr {
+			var r *ast.CallExpr
+			ast.Inspect(e, func(n ast.Node) bool {
+				if c, ok := n.(*ast.CallExpr); ok && exprString(c.Fun) == name && r == nil {
+					r = c
+				}
+				return true
+			})
+			return r
+		}
+		isConst := func(e ast.Expr) bool { return exprString(e) == "sidecarPrefix" }
 		ast.Inspect(fd.Body, func(n ast.Node) bool {
 			is, ok := n.(*ast.IfStmt)
 			if !ok {
 				return true
 			}
-			body := ""
-			for _, st := range is.Body.List {
-				if rs, ok := st.(*ast.ReturnStmt); ok {
-					for _, e := range rs.Results {
-						body += exprString(e)
+			cond := is.Cond
+			neg := false
+			for {
+				if p, ok := cond.(*ast.ParenExpr); ok {
+					cond = p.X
+					continue
+				}
+				if u, ok := cond.(*ast.UnaryExpr); ok && u.Op == token.NOT {
+					neg = !neg
+					cond = u.X
+					continue
+				}
+				break
+			}
+			switch {
+			case mentions(cond, "sidecarPrefix") && hasCall(cond, "len") == nil:
+				prefixCmp = "other: " + exprString(is.Cond)
+				if be, ok := cond.(*ast.BinaryExpr); ok && (isConst(be.X) || isConst(be.Y)) {
+					if (be.Op == token.NEQ && !neg) || (be.Op == token.EQL && neg) {
+						prefixCmp = "exact"
+					}
+				}
+				if c, ok := cond.(*ast.CallExpr); ok && neg && exprString(c.Fun) == "strings.HasPrefix" &&
+					len(c.Args) == 2 && isConst(c.Args[1]) {
+					prefixCmp = "exact"
+				}
+			case hasCall(cond, "bytes.Equal") != nil || hasCall(cond, "bytes.Compare") != nil:
+				checksumCmp = "other: " + exprString(is.Cond)
+				var call *ast.CallExpr
+				if c, ok := cond.(*ast.CallExpr); ok && neg && exprString(c.Fun) == "bytes.Equal" {
+					call = c
+				}
+				if be, ok := cond.(*ast.BinaryExpr); ok && be.Op == token.NEQ && !neg && exprString(be.Y) == "0" {
+					if c, ok := be.X.(*ast.CallExpr); ok && exprString(c.Fun) == "bytes.Compare" {
+						call = c
+					}
+				}
+				if call != nil && len(call.Args) == 2 {
+					full := true
+					for _, a := range call.Args {
+						ast.Inspect(a, func(m ast.Node) bool {
+							if se, ok := m.(*ast.SliceExpr); ok {
+								if se.High != nil && exprString(se.High) != "checksumLen" {
+									full = false
+								}
+							}
+							return true
+						})
+					}
+					if full {
+						checksumCmp = "exact"
 					}
 				}
 			}
-			switch {
-			case strings.Contains(body, "invalid prefix") && !strings.Contains(exprString(is.Cond), "len("):
-				prefixCond = exprString(is.Cond)
-			case strings.Contains(body, "checksum"):
-				checksumCond = exprString(is.Cond)
-			}
 			return true
 		})
-		if prefixCond == "" || checksumCond == "" {
-			fail("DecodeString: prefix / checksum comparison not found")
-		}
 	}
-	l.p("def decodeStringPrefixCond : String := %q", prefixCond)
-	l.p("def decodeStringChecksumCond : String := %q", checksumCond)
+	l.p("def decodeStringPrefixCompare : String := %q", prefixCmp)
+	l.p("def decodeStringChecksumCompare : String := %q", checksumCmp)
 
 	for _, fn := range []string{"DeserializeTicket", "decodeBytes"} {
 		fd := findFunc(files, fn)
